@@ -208,6 +208,91 @@ def _features(p: str, cwd: str):
     return {"dotdot": has_dotdot, "bad_ext": bad_ext, "links": links}
 
 
+def _one_call(tool, p, env):
+    """One interposed call of a tool surface on path string `p` in the CURRENT process / tree / cwd.
+    env: wt, vt (tool objects living as long as the worker), file_ops, prefixes, base (snapshot root), cwd, sandboxes
+    (absolute directories inside which mutations are allowed), optional cli (click group) ."""
+    global REC
+    import asyncio
+    base, cwd, prefixes, file_ops = env["base"], env["cwd"], env["prefixes"], env["file_ops"]
+    before = snapshot(base)
+    REC = []
+    try:
+        if tool == "w":
+            r = asyncio.run(env["wt"].execute(target_path=p, content=NEWDOC))
+            errs = r.get("errors") or []
+            if r.get("status") == "success":
+                oc = "ACCEPT:success"
+            elif errs and errs[0].get("code") == "E_PATH":
+                oc = "E_PATH:" + _msg_reason(errs[0].get("message", ""), prefixes["write"])
+            else:
+                oc = "ACCEPT:" + (errs[0].get("code", "?") if errs else "?")
+        elif tool == "v":
+            r = asyncio.run(env["vt"].execute(file_path=p, schema="META"))
+            errs = r.get("errors") or []
+            code = errs[0].get("code") if errs and isinstance(errs[0], dict) else None
+            if code == "E_PATH":
+                oc = "E_PATH:" + _msg_reason(errs[0].get("message", ""), prefixes["validate"])
+            elif code in ("E_FILE", "E_READ"):
+                oc = "ACCEPT:" + code
+            else:
+                oc = "ACCEPT:read"
+        elif tool == "vp":      # the bare verdict function used by the CLI and by atomic_write_octave
+            ok, msg = file_ops.validate_octave_path(p)
+            oc = "ACCEPT:valid" if ok else "E_PATH:" + _msg_reason(msg or "", prefixes["fileops"])
+        elif tool == "cli":     # `octave write FILE --content ...` in-process (same interpreter state as a long-lived embedding)
+            from click.testing import CliRunner
+            r = CliRunner().invoke(env["cli"], ["write", p, "--content", NEWDOC])
+            text = (r.output or "")
+            try:
+                text += r.stderr or ""
+            except (ValueError, AttributeError):
+                pass
+            if r.exit_code == 0:
+                oc = "ACCEPT:success"
+            else:
+                rs = "?"
+                for line in text.splitlines():
+                    if line.startswith("Error: "):
+                        rs = _msg_reason(line[len("Error: "):], prefixes["fileops"])
+                        if rs != "?":
+                            break
+                oc = ("E_PATH:" + rs) if rs != "?" else "ACCEPT:error"
+        else:
+            r = file_ops.atomic_write_octave(p, NEWDOC)
+            if r.get("status") == "success":
+                oc = "ACCEPT:success"
+            else:
+                rs = _msg_reason(r.get("error", ""), prefixes["fileops"])
+                oc = ("E_PATH:" + rs) if rs != "?" else "ACCEPT:error"
+    except BaseException as e:  # noqa
+        oc = "ACCEPT:EXC:" + type(e).__name__
+    ops = REC
+    REC = None
+    after = snapshot(base)
+    diff = snap_diff(before, after)
+    io_ops = [(n, c, a) for (n, c, ok, a, _e) in ops if ok and c in (READ, MUT)]
+    tried = [(n, c, a, e) for (n, c, ok, a, e) in ops if (not ok) and c in (READ, MUT)]
+    sand = env["sandboxes"]
+    sand_rel = [os.path.relpath(sd, base) for sd in sand]
+    outside = []
+    for (n, c, a) in io_ops:
+        if c == MUT:
+            for x in a:
+                if x != "<fd>":
+                    ax = os.path.join(cwd, x)
+                    rp = os.path.realpath(os.path.dirname(ax.rstrip("/")) or "/")
+                    if not any((rp + "/").startswith(sd + "/") for sd in sand):
+                        outside.append((n, x.replace(base, "{B}")))
+    return {
+        "outcome": oc, "diff": diff, "n_meta": sum(1 for o in ops if o[1] == META),
+        "io": [(n, c, [x.replace(base, "{B}") for x in a]) for (n, c, a) in io_ops][:8],
+        "tried": [(n, c, [x.replace(base, "{B}") for x in a], e) for (n, c, a, e) in tried][:6],
+        "outside": outside,
+        "out_changed": any(not any(k == sr or k.startswith(sr + "/") for sr in sand_rel) for k, _, _ in diff),
+    }
+
+
 def worker(job):
     global REC
     variant, cwd_rel, paths, tools, prefixes, mutate = job["variant"], job["cwd"], job["paths"], job["tools"], job["prefixes"], job.get("mutate")
@@ -227,7 +312,8 @@ def worker(job):
         build_tree(base, spec)
         cwd = os.path.join(base, cwd_rel)
         os.chdir(cwd)
-        wt, vt = WriteTool(), ValidateTool()
+        env = {"wt": WriteTool(), "vt": ValidateTool(), "file_ops": file_ops, "prefixes": prefixes, "base": base, "cwd": cwd,
+               "sandboxes": [base + "/sb"]}
         for praw in paths:
             p = praw.replace("{B}", base)
             rec = {"path": praw}
@@ -262,59 +348,8 @@ def worker(job):
             rec["feat"] = _features(p, cwd)
             rec["calls"] = {}
             for tool in tools:
-                before = snapshot(base)
-                REC = []
-                try:
-                    if tool == "w":
-                        r = asyncio.run(wt.execute(target_path=p, content=NEWDOC))
-                        errs = r.get("errors") or []
-                        if r.get("status") == "success":
-                            oc = "ACCEPT:success"
-                        elif errs and errs[0].get("code") == "E_PATH":
-                            oc = "E_PATH:" + _msg_reason(errs[0].get("message", ""), prefixes["write"])
-                        else:
-                            oc = "ACCEPT:" + (errs[0].get("code", "?") if errs else "?")
-                    elif tool == "v":
-                        r = asyncio.run(vt.execute(file_path=p, schema="META"))
-                        errs = r.get("errors") or []
-                        code = errs[0].get("code") if errs and isinstance(errs[0], dict) else None
-                        if code == "E_PATH":
-                            oc = "E_PATH:" + _msg_reason(errs[0].get("message", ""), prefixes["validate"])
-                        elif code in ("E_FILE", "E_READ"):
-                            oc = "ACCEPT:" + code
-                        else:
-                            oc = "ACCEPT:read"
-                    else:
-                        r = file_ops.atomic_write_octave(p, NEWDOC)
-                        if r.get("status") == "success":
-                            oc = "ACCEPT:success"
-                        else:
-                            rs = _msg_reason(r.get("error", ""), prefixes["fileops"])
-                            oc = ("E_PATH:" + rs) if rs != "?" else "ACCEPT:error"
-                except BaseException as e:  # noqa
-                    oc = "ACCEPT:EXC:" + type(e).__name__
-                ops = REC
-                REC = None
-                after = snapshot(base)
-                diff = snap_diff(before, after)
-                io_ops = [(n, c, a) for (n, c, ok, a, _e) in ops if ok and c in (READ, MUT)]
-                tried = [(n, c, a, e) for (n, c, ok, a, e) in ops if (not ok) and c in (READ, MUT)]
-                outside = []
-                for (n, c, a) in io_ops:
-                    if c == MUT:
-                        for x in a:
-                            if x != "<fd>":
-                                ax = os.path.join(cwd, x)
-                                rp = os.path.realpath(os.path.dirname(ax.rstrip("/")) or "/")
-                                if not (rp + "/").startswith(base + "/sb/") and rp != base + "/sb":
-                                    outside.append((n, x.replace(base, "{B}")))
-                rec["calls"][tool] = {
-                    "outcome": oc, "diff": diff, "n_meta": sum(1 for o in ops if o[1] == META),
-                    "io": [(n, c, [x.replace(base, "{B}") for x in a]) for (n, c, a) in io_ops][:8],
-                    "tried": [(n, c, [x.replace(base, "{B}") for x in a], e) for (n, c, a, e) in tried][:6],
-                    "outside": outside,
-                    "out_changed": any(k == "out" or k.startswith("out/") for k, _, _ in diff),
-                }
+                rec["calls"][tool] = c = _one_call(tool, p, env)
+                diff = c["diff"]
                 if diff:
                     os.chdir("/")
                     wipe_tree(base)
@@ -610,6 +645,52 @@ def gen_uris(ctx):
     return sorted(set(out))
 
 
+TOOL_NAME = {"w": "octave_write", "v": "octave_validate", "f": "atomic_write_octave", "vp": "validate_octave_path", "cli": "cli write"}
+MODEL_KEY = {"w": "w", "v": "v", "f": "f", "vp": "f", "cli": "f"}     # which validator configuration of the model a surface uses
+
+
+def is_accepted(oc):
+    return oc.endswith(":success") or oc in ("ACCEPT:read", "ACCEPT:valid")
+
+
+def judge_call(ctx, case, tool, c, feat, m, oom):
+    """Verdict vs model (m: model record for the CURRENT tree, or None) and the property itself (model-independent)."""
+    oc = c["outcome"]
+    forbidden = feat["dotdot"] or feat["bad_ext"] or bool(feat["links"])
+    # ---- correspondence: verdict and refusing check ----
+    if m is not None:
+        mv = m[MODEL_KEY[tool]]
+        want = model_expect(mv)
+        got = oc if oc.startswith("E_PATH") else "ACCEPT"
+        if oom:
+            want, got = want.split(":")[0], got.split(":")[0]
+        if want != got:
+            ctx.correspondence_failure(dict(case, model=mv), "validator verdict / refusing check differs from the model")
+        elif tool == "v" and got == "ACCEPT" and m["st"][0] != "R":
+            if (oc == "ACCEPT:E_FILE") != (m["st"][0] == "F"):
+                ctx.correspondence_failure(dict(case, model_exists=m["st"]), "E_FILE of octave_validate differs from the model's exists()")
+    # ---- the property itself ----
+    refused = not is_accepted(oc)
+    changed = bool(c["diff"])
+    touched = bool(c["io"])
+    if c["out_changed"] or c["outside"]:
+        ctx.property_failure(case, "a path outside the sandbox was created/modified")
+        return
+    if oc.startswith("E_PATH") and (changed or touched or c["tried"]):
+        ctx.property_failure(case, "file-system read/mutation performed although the path was refused with E_PATH")
+        return
+    if forbidden and (not refused or changed or touched):
+        links = feat["links"]
+        unstat = (not feat["dotdot"] and not feat["bad_ext"] and links and all(not st for _, st in links))
+        # no finding is listed any more: a link that cannot be stat'ed (dangling / ENOTDIR / >40 links) is a link
+        ctx.hist("property_failures", "unstattable-symlink (fixed by %s: regression)" % FIXED_BY if unstat else "other")
+        ctx.property_failure(case, "path with a '..'/symlink component/disallowed extension was not refused before touching files "
+                             f"(outcome {oc}, changed={changed})"
+                             + (f"; every link on the path is one for which stat fails -- the defect fixed by {FIXED_BY}" if unstat else ""))
+    if forbidden and refused and c["tried"]:
+        ctx.hist("refused_after_failed_attempt", oc)
+
+
 # ------------------------------------------------------------------------------------------------
 def run(ctx):
     have_model = ctx.build_status["drivers"].get("pathm", False)
@@ -715,7 +796,7 @@ def run(ctx):
                 ctx.count()
                 oc = c["outcome"]
                 ctx.hist("outcome_" + tool, oc)
-                case = {"tree": b["variant"], "cwd": b["cwd"], "path": r["path"], "tool": {"w": "octave_write", "v": "octave_validate", "f": "atomic_write_octave"}[tool],
+                case = {"tree": b["variant"], "cwd": b["cwd"], "path": r["path"], "tool": TOOL_NAME[tool],
                         "outcome": oc, "features": feat, "snapshot_diff": c["diff"], "io_ops": c["io"], "failed_io_attempts": c["tried"]}
                 if forbidden or cls != "plain":
                     ctx.nontrivial((b["variant"], b["cwd"], r["path"], tool))
@@ -733,37 +814,7 @@ def run(ctx):
                                              f"was not refused before a file was read, created or replaced (outcome {oc}, "
                                              f"changed={bool(c['diff'])}, io={bool(c['io'])})")
                         continue
-                # ---- correspondence: verdict and refusing check ----
-                if m is not None:
-                    want = model_expect(m[tool])
-                    got = oc if oc.startswith("E_PATH") else "ACCEPT"
-                    if oom:
-                        want, got = want.split(":")[0], got.split(":")[0]
-                    if want != got:
-                        ctx.correspondence_failure(dict(case, model=m[tool]), "validator verdict / refusing check differs from the model")
-                    elif tool == "v" and got == "ACCEPT" and m["st"][0] != "R":
-                        if (oc == "ACCEPT:E_FILE") != (m["st"][0] == "F"):
-                            ctx.correspondence_failure(dict(case, model_exists=m["st"]), "E_FILE of octave_validate differs from the model's exists()")
-                # ---- the property itself ----
-                refused = not (oc.endswith(":success") or oc == "ACCEPT:read")
-                changed = bool(c["diff"])
-                touched = bool(c["io"])
-                if c["out_changed"] or c["outside"]:
-                    ctx.property_failure(case, "a path outside the sandbox was created/modified")
-                    continue
-                if oc.startswith("E_PATH") and (changed or touched or c["tried"]):
-                    ctx.property_failure(case, "file-system read/mutation performed although the path was refused with E_PATH")
-                    continue
-                if forbidden and (not refused or changed or touched):
-                    links = feat["links"]
-                    unstat = (not feat["dotdot"] and not feat["bad_ext"] and links and all(not st for _, st in links))
-                    # no finding is listed any more: a link that cannot be stat'ed (dangling / ENOTDIR / >40 links) is a link
-                    ctx.hist("property_failures", "unstattable-symlink (fixed by %s: regression)" % FIXED_BY if unstat else "other")
-                    ctx.property_failure(case, "path with a '..'/symlink component/disallowed extension was not refused before touching files "
-                                         f"(outcome {oc}, changed={changed})"
-                                         + (f"; every link on the path is one for which stat fails -- the defect fixed by {FIXED_BY}" if unstat else ""))
-                if forbidden and refused and c["tried"]:
-                    ctx.hist("refused_after_failed_attempt", oc)
+                judge_call(ctx, case, tool, c, feat, m, oom)
     for key in sorted(set(expect) - expect_seen):
         ctx.obligation_failure("corpus", f"corpus case {key} with an expectation was not executed")
     ctx.extra["corpus_expectations_replayed"] = len(expect_seen)
